@@ -10,16 +10,9 @@ INT = 'tracklib.algo.interpolation'
 TRACK = 'tracklib.core.track.Track'
 
 EXPLANATION = (
-    "Static analysis of __resampleTemporal / __resampleSpatial / prepareTimeSampling / resample / Track.resample: "
-    "each interpolated coordinate is, as an exact rational identity, (a_f - a)/(a_f - a_b) * P[r-1] + (a - a_b)/(a_f - a_b) * P[r] "
-    "with a the requested abscissa (instant or curvilinear abscissa), a_b = A[r-1], a_f = A[r] read at the same index "
-    "r as the two fixes, x/y/z through getX/getY/getZ of both fixes; the abscissa tables pair index i with fix i "
-    "(timestamps; cumulated planimetric leg lengths starting at 0); requests are admitted exactly on (t_first, t_last]; "
-    "the bracket search is a strict sentinel scan; the output is stamped with the requested instant; spatial samples "
-    "sit at k*ds for k=1..int(L/ds) after a copy of the first fix; regular instants are generated while <= t_last; "
-    "mode/algo are forwarded by the front end and the feature table is reset.")
+    'Static analysis by interpretation of the source (nothing imported or executed by CPython): Track.resample in linear temporal and spatial mode is walked by tlint.orders on five irregular ENU tracks (repeated position, climbing, two fixes, tied timestamps) with requests given as a number (dividing and not dividing the duration, longer than it, a float subclass), as lists of instants (before / on / between / after the fixes) and as a reference track, spatial steps that do and do not divide the 2D length, a stale abs_curv feature and the npts form; the result is compared with the piecewise-linear interpolant (count, x, y, z, instants to the millisecond, non-decreasing times, feature table reset).')
 ASSUMPTIONS = ["strictly increasing timestamps and sorted requests (precondition); denominators a_f - a_b are non-zero"]
-TECHNIQUE = "rational identity checking of the interpolation formulas (F2), index pairing and range rules (F3), admission guards (F4/F6)"
+TECHNIQUE = "abstract interpretation of Track.resample / interpolation.resample / prepareTimeSampling by the checker's AST interpreter on irregular tracks and request forms, against the piecewise-linear interpolant computed by the checker (bounded case domain)"
 
 
 def vr(v):
